@@ -13,7 +13,9 @@ glob specenum <pat> <alphabet> <maxlen>
 privacy run (R <H|P|U> <pat>)* (Q <c|v|p> <obj>(;<obj>)*)*   -> <answer>* | <cache>
      obj = <fullName>/<name>/<m|o><n|k>   (module or other; kind None or known); a chain is
      object;parent;grandparent…   answers: PUBLIC PRIVATE HIDDEN True False ReError IndexError
-privacy parse <value>                 -> ok <H|P|U> <pat> | SystemExit
+privacy cli (V <value>)* (Q …)*       -> the same, the rules being the command-line values parsed by the model
+                                         of options._convert_privacy; SystemExit | IndexError when a value is refused
+privacy parse <value>                 -> ok <LEVEL> <pat> | SystemExit | IndexError
 ```
 strings are `u:` tokens (Proto). -/
 
@@ -142,20 +144,42 @@ def runQueries (rules : List Rule) : Cache → List Query → List String × Cac
 def showCache (c : Cache) : String :=
   if c.isEmpty then "-" else ",".intercalate (c.map fun kv => Proto.encodeStr kv.1 ++ "=" ++ showLevel kv.2)
 
+/-- split `(V value)*` off the front -/
+def parseValues : List String → List (List Char) → Option (List (List Char) × List String)
+  | "V" :: v :: rest, acc =>
+    match Proto.decodeStr v with
+    | some value => parseValues rest (value :: acc)
+    | none => none
+  | rest, acc => some (acc.reverse, rest)
+
+def answerRun (rules : List Rule) (qs : List Query) : String :=
+  let (as, c) := runQueries rules [] qs
+  " ".intercalate as ++ " | " ++ showCache c
+
 def handlePrivacy (args : List String) : String :=
   match args with
   | ["parse", v] =>
     match Proto.decodeStr v with
     | some value =>
       match parseRule value with
-      | some r => "ok " ++ showLevel r.level ++ " " ++ Proto.encodeStr r.pat
-      | none => "SystemExit"
+      | .ok r => "ok " ++ showLevel r.level ++ " " ++ Proto.encodeStr r.pat
+      | .systemExit => "SystemExit"
+      | .indexError => "IndexError"
     | none => "bad-op"
   | "run" :: rest =>
     match parseRun rest [] with
-    | some (rules, qs) =>
-      let (as, c) := runQueries rules [] qs
-      " ".intercalate as ++ " | " ++ showCache c
+    | some (rules, qs) => answerRun rules qs
+    | none => "bad-op"
+  | "cli" :: rest =>
+    match parseValues rest [] with
+    | some (values, rest') =>
+      match parseRun rest' [] with
+      | some ([], qs) =>
+        match parseRules values with
+        | .ok rules => answerRun rules qs
+        | .systemExit => "SystemExit"
+        | .indexError => "IndexError"
+      | _ => "bad-op"
     | none => "bad-op"
   | _ => "bad-op"
 
